@@ -735,11 +735,17 @@ impl Engine for SerdeEngine {
             };
             Input::Zst { n, hint }
         } else if which == 4 {
+            let big = r.chance(1, 100);
+            let universe = if big { 3000 + r.below(6000) } else { universe };
             let n = match r.below(6) {
+                _ if big => *r.pick(&[4095usize, 4096, 4097, 4200, 6000, 9000]),
                 0 => 0,
                 1 => 1,
                 _ => r.usize(24),
             };
+            if big {
+                acc.bump("probes", "framed_records_beyond_the_preallocation_cap", 1);
+            }
             let pairs: Vec<(u64, i32)> = (0..n).map(|i| (r.below(universe + 4) | ((i as u64 + 1) << 32), prio(&mut r))).collect();
             let nf = r.usize(3);
             let faults: Vec<FrameFault> = (0..nf)
@@ -768,14 +774,21 @@ impl Engine for SerdeEngine {
             };
             Input::Framed { pairs, faults, src }
         } else if which < 2 {
+            // (one case in 300: thousands of pairs, around the deserializer's pre-allocation cap)
+            let big = r.chance(1, 150);
+            let universe = if big { 3000 + r.below(6000) } else { universe };
             let n = match r.below(6) {
+                _ if big => *r.pick(&[4095usize, 4096, 4097, 4200, 6000, 9000]),
                 0 => 0,
                 1 => 1,
                 2 => 2,
                 _ => r.usize(30),
             };
             let pairs: Vec<(u64, i32)> = (0..n).map(|i| (r.below(universe) | ((i as u64 + 1) << 32), prio(&mut r))).collect();
-            Input::Pairs { pairs, via: *r.pick(&[Via::Json, Via::Json, Via::SeqExact, Via::SeqNoHint]) }
+            if big {
+                acc.bump("probes", "pairs_beyond_the_preallocation_cap", 1);
+            }
+            Input::Pairs { pairs, via: if big { *r.pick(&[Via::SeqExact, Via::SeqExact, Via::SeqNoHint, Via::Json]) } else { *r.pick(&[Via::Json, Via::Json, Via::SeqExact, Via::SeqNoHint]) } }
         } else {
             let n = r.usize(20);
             let pairs: Vec<(u32, i32, u32)> = (0..n).map(|i| (r.below(universe + 8) as u32, prio(&mut r), 0x50 + i as u32)).collect();
